@@ -108,7 +108,7 @@ theorem zwBody_keeps [DecidableEq M] {g : Game P M} {o : Oracle M} {czw : ZwFn P
     · rw [h]; exact ⟨hts'.of_table rfl, fun _ _ => trivial, fun _ _ => trivial⟩
 
 /-- a PV node under a monotone oracle keeps the table good -/
-theorem pvNode_keeps [DecidableEq M] {g : Game P M} (hg : GameOK g) (he : EvalOK g) (hinj : HashInj g)
+theorem pvNode_keeps [DecidableEq M] {g : Game P M} (hg : GameOK g) (he : EvalOK g) (hinj : HashOK g)
     {cfg : SOpts} (hpr : Precise cfg) {o : Oracle M} (hm : o.Monotone) (hord : OrderOK o) (frame : Bool)
     {cpv cpv' : PvFn P M} {czw czw' : ZwFn P M} (hpK : PvKeeps g cpv) (hzK : ZwKeeps g czw)
     (hpL : LocPv o cpv cpv') (hzL : LocZw o czw czw') (hpG : PvGood g cpv') (hzG : ZwGood g czw') :
@@ -170,7 +170,7 @@ theorem pvNode_keeps [DecidableEq M] {g : Game P M} (hg : GameOK g) (he : EvalOK
           exact (hfacts (ttPut_some_falseUpTo hm s3 _ slot s4 hput)).facts.1
 
 /-- a zero-window node under a monotone oracle keeps the table good -/
-theorem zwNode_keeps [DecidableEq M] {g : Game P M} (hg : GameOK g) (he : EvalOK g) (hinj : HashInj g)
+theorem zwNode_keeps [DecidableEq M] {g : Game P M} (hg : GameOK g) (he : EvalOK g) (hinj : HashOK g)
     {cfg : SOpts} (hpr : Precise cfg) {o : Oracle M} (hm : o.Monotone) (hord : OrderOK o) (frame : Bool)
     {czw czw' : ZwFn P M} (hzK : ZwKeeps g czw) (hzL : LocZw o czw czw') (hzG : ZwGood g czw') :
     ZwKeeps g (zwNode g cfg o frame czw) := by
@@ -236,7 +236,7 @@ theorem zwNode_keeps [DecidableEq M] {g : Game P M} (hg : GameOK g) (he : EvalOK
           exact (hfacts (ttPut_some_falseUpTo hm s3 _ slot s4 hput)).facts.1
 
 /-- **a search that may be cancelled at any point keeps the table good** (precise options, any move order) -/
-theorem search_keeps [DecidableEq M] {g : Game P M} (hg : GameOK g) (he : EvalOK g) (hinj : HashInj g)
+theorem search_keeps [DecidableEq M] {g : Game P M} (hg : GameOK g) (he : EvalOK g) (hinj : HashOK g)
     {cfg : SOpts} (hpr : Precise cfg) {o : Oracle M} (hm : o.Monotone) (hord : OrderOK o) :
     ∀ n, PvKeeps g (search g cfg o n).1 ∧ ZwKeeps g (search g cfg o n).2 := by
   intro n
